@@ -335,6 +335,19 @@ def seq3_check(elems, text):
     return None
 
 
+def run_case_reps(job):
+    """one case under `reps` seeds: ([(seed, problem)], bad?, option set)"""
+    c, seed0, reps = job
+    if isinstance(c, str):
+        c = json.loads(c)
+    probs = []
+    for k in range(reps):
+        prob = run_case((c, seed0 + k))
+        if prob:
+            probs.append((seed0 + k, prob))
+    return probs, c['bad'], json.dumps(c['opt'], sort_keys=True)
+
+
 def run(ctx):
     ctx.assumptions += ['data over atoms a, b and keys k, m; a list whose last item is empty is not generated (with a nullable '
                         'item symbol "[a,]" is inherently ambiguous; the documented reading "final delimiter" is adopted)',
@@ -344,8 +357,9 @@ def run(ctx):
     cases = [c for c in r.printed if isinstance(c, dict)]
     if not ctx.quick:
         r = ctx.tlc('llparser/LLTemplates.tla', 'SPECIFICATION Spec\nCHECK_DEADLOCK FALSE\nCONSTANTS\n  Depth = 2\n  Width = 2\n  Emit = TRUE\n  Tops = {}\n',
-                    workers=16, timeout=7200, heap='16g')
-        cases += [c for c in r.printed if isinstance(c, dict)]
+                    workers=16, timeout=7200, heap='16g', decode=False)
+        cases += [c for c in r.printed if c.startswith('{')]        # JSON text, decoded in the workers (memory)
+        del r
     if ctx.quick:
         # containers of three entries (order of the later entries, repeated keys) for the plain top form
         r = ctx.tlc('llparser/LLTemplates.tla', 'SPECIFICATION Spec\nCHECK_DEADLOCK FALSE\nCONSTANTS\n  Depth = 1\n  Width = 3\n  Emit = TRUE\n'
@@ -354,26 +368,31 @@ def run(ctx):
     if len(cases) < 3000:
         raise Machinery('LLTemplates emitted %d cases' % len(cases))
     reps = 4
-    jobs = [(c, ctx.seed * 1000 + i * 7 + k) for i, c in enumerate(cases) for k in range(reps)]
-    res = pmap(run_case, jobs)
-    for (c, seed), prob in zip(jobs, res):
-        if prob:
-            ctx.violation({'case': c, 'seed': seed}, prob)
+    jobs = [(c, ctx.seed * 1000 + i * 7, reps) for i, c in enumerate(cases)]
+    res = pmap(run_case_reps, jobs, chunk=500)
+    del jobs
+    nbad, optsets = 0, set()
+    for c, (probs, isbad, optkey) in zip(cases, res):
+        nbad += bool(isbad)
+        optsets.add(optkey)
+        for seed, prob in probs:
+            ctx.violation({'case': json.loads(c) if isinstance(c, str) else c, 'seed': seed}, prob)
     for case, prob, tags in seq_cases(ctx.rnd, 300 if ctx.quick else 5000):
         ctx.violation(case, prob, tags)
-    bad = json.loads(json.dumps(next(c for c in cases if c['expect']['t'] == 'list' and c['expect']['es'] and not c['bad']
+    bad = json.loads(json.dumps(next(c for c in cases if isinstance(c, dict) and c['expect']['t'] == 'list' and c['expect']['es'] and not c['bad']
                                      and c['opt']['top'] == 'value')))
     bad['expect']['es'] = bad['expect']['es'] + [{'t': 'str', 's': 'zz'}]
     ctx.selftest(run_case((bad, 1)) is not None, 'replay accepted a corrupted expected value')
     # growth item: navigation over cleaned trees (DRIFT only, see drivers/treenav.py)
     from drivers import treenav
     treenav.run(ctx)
-    ctx.traces = len(jobs)
+    ctx.traces = len(cases) * reps
     ctx.exhaustive = False
     ctx.extra['cases'] = len(cases)
-    ctx.extra['bad_final_delimiter_cases'] = sum(1 for c in cases if c['bad'])
-    ctx.extra['option_sets'] = len({json.dumps(c['opt'], sort_keys=True) for c in cases})
+    ctx.extra['bad_final_delimiter_cases'] = nbad
+    ctx.extra['option_sets'] = len(optsets)
     for c in (cases[0], cases[len(cases) // 2], cases[-1]):
+        c = json.loads(c) if isinstance(c, str) else c
         ctx.sample({'opt': c['opt'], 'tokens': c['toks'], 'bad': c['bad']})
 
 
